@@ -146,6 +146,10 @@ pub fn run(tier: &str) -> i32 {
             }
         }
     }
+    // flat directories of 64..80 KiB and 128..144 KiB (sizes whose low 16 bits look like a fitting root)
+    for n in (13_500..=17_500).step_by(if thorough { 250 } else { 1000 }).chain([28_000usize, 29_500]) {
+        jobs.push((0, n, Compression::None));
+    }
     rep.set("window_crossings", json!(crossings));
     let res: Vec<_> = jobs
         .par_iter()
